@@ -43,6 +43,11 @@ def lit(rng: random.Random, v: int) -> str:
     if v < 0:
         return f'(0-{lit(rng, -v)})'
     r = rng.random()
+    if r < 0.004 and v < 10 ** 23:
+        # the difference of two decimal literals of thousands of digits (numbers are unbounded in the language)
+        prefix = str(rng.randrange(1, 10)) + ''.join(rng.choice('0123456789') for _ in range(rng.choice([3980, 4280, 5000, 7977])))
+        tail = rng.randrange(v, 10 ** 24)
+        return f'({prefix}{tail:024d} - {prefix}{tail - v:024d})'
     if r < 0.55:
         return str(v)
     if r < 0.85:
@@ -92,6 +97,51 @@ def expr_for(rng: random.Random, value: int, names: Dict[str, int], dollar: Opti
         return f'{cond} ? ({good}) : {junk}' if truth else f'{cond} ? {junk} : ({good})'
     s = rng.randrange(1, 5)
     return f'(({expr_for(rng, value, names, dollar, depth - 1)}) << {s}) >> {s}'
+
+
+def misaligned_layout(rng: random.Random) -> Program:
+    """an IMPOSSIBLE layout built from parity alone: the image is made of segments, and a segment must start on an even word and
+    span an even number of words. programs whose pieces break that in every combination - odd start / odd span / BOTH at once,
+    the odd reserve before, between or after the ops - and that are fine in every other respect."""
+    w = rng.choice([8, 16, 32, 64])
+    dw = 2 * w
+    lines: List[str] = [';']          # piece 0: one op at address 0 (even start, even span)
+    reasons: List[str] = []
+    cursor_words = 2
+    n_pieces = rng.choice([1, 1, 2])
+    bad_piece = rng.randrange(n_pieces)
+    top_words = (1 << w) // w
+    for piece in range(n_pieces):
+        bad = piece == bad_piece
+        shape = rng.choice(['odd-start', 'odd-span', 'odd-start+odd-span']) if bad else 'fine'
+        gap = 2 * rng.randrange(1, 4)
+        start = cursor_words + gap + (1 if 'odd-start' in shape else 0)
+        body: List[str] = []
+        span = 0
+        n_ops = rng.randrange(1, 4)
+        odd_at = rng.randrange(n_ops + 1) if 'odd-span' in shape else -1
+        for k in range(n_ops + 1):
+            if k == odd_at:
+                words = 2 * rng.randrange(0, 3) + 1
+                body.append(f'reserve {words}*{w}' if rng.random() < 0.5 else f'reserve {words * w}')
+                span += words
+            if k < n_ops:
+                body.append(f'{rng.randrange(0, 1 << min(w, 16))};{rng.randrange(0, 1 << min(w, 16))}')
+                span += 2
+        if start + span + 4 > top_words:
+            break
+        lines.append(f'segment {start}*{w}' if rng.random() < 0.5 else f'segment {start * w}')
+        lines.extend(body)
+        cursor_words = start + span + (span % 2)
+        if bad:
+            reasons.append(f'segment parity ({shape}): a segment starts on an even word and spans an even number of words; this piece starts at word {start} and spans {span}')
+    model = Model(w)
+    model.impossible = reasons or ['(the drawn piece did not fit the memory)']
+    if not reasons:  # nothing bad was emitted (tiny memory): make it a plain impossible one
+        lines.append(f'segment {w}')
+        lines.append(';')
+        model.impossible = ['segment on an odd word']
+    return Program(w, lines, model, {'flaw': 'parity/' + (reasons[0].split('(')[1].split(')')[0] if reasons else 'odd-start'), 'n': len(lines), 'w': w})
 
 
 def generate(rng: random.Random, w: Optional[int] = None, n_statements: Optional[int] = None, flaws: bool = True) -> Program:
